@@ -69,6 +69,7 @@ class SubRun:
         pdata = self.ident.pairing_data(ctrl, hosts=[D.HOSTS["h1"]])
         self.net = D.DeferredNet(self.loop, self.beh, self)
         self.net.auto = True
+        self.net.down = False
         self.net.install()
         self.down = False
         self.net.tcp_script = None
@@ -217,6 +218,7 @@ class SubRun:
 
     def finish(self):
         self.beh.hold_put = False
+        self.net.down = False
         for conn in self.net.conns:
             if conn.open:
                 self.release_puts(conn)
@@ -272,7 +274,16 @@ def stim(r: SubRun, rng):
         opts += [("event", conn)] * 6 + [("burst", conn)] * 2 + [("split", conn)] * 2 + [("bad", conn)] * 2
         opts += [("drop", conn, "fin"), ("drop", conn, "rst")]
     opts += [("hold",)]
+    if not r.ops:
+        opts += [("net",)] * (3 if r.net.down else 1)
     o = rng.choice(opts)
+    if o[0] == "net":
+        # the accessory becomes unreachable (TCP refused) / reachable again
+        r.net.down = not r.net.down
+        if not r.net.down:
+            r.settle()
+            r.loop.advance(61)          # the next back-off retry reconnects
+        return
     if o[0] == "add":
         r.add_listener(o[1])
     elif o[0] == "remove":
@@ -280,6 +291,9 @@ def stim(r: SubRun, rng):
     elif o[0] in ("sub", "unsub"):
         k = rng.randrange(1, 4)
         r.op(o[0], rng.sample(CHARS, k))
+        r.settle()
+        if r.ops and (conn is None or r.net.down):
+            r.loop.advance(11)          # not connected: the 10 s wait for the connection runs out
     elif o[0] == "release":
         r.release_puts(o[1])
     elif o[0] == "timeout":
